@@ -4,7 +4,7 @@
    battery, reload) is decided per run by the sanitizers, the watchdog and the verified checker
    wf_check on the real library (checks/c06.py). *)
 From Coq Require Import String NArith ZArith List.
-From HV Require Import Base.Bytes Text.XmlLex Text.XmlLexProofs Text.Base64 Text.Base64Mem Text.Base64MemProofs.
+From HV Require Import Base.Bytes Gen.Tables Text.TypeOrder Text.XmlLex Text.XmlLexProofs Text.Base64 Text.Base64Mem Text.Base64MemProofs Text.XmlImport Text.XmlImportProofs.
 Import ListNotations.
 Local Open Scope N_scope.
 
@@ -50,6 +50,59 @@ Example b64_decode_exact_fit :
   decode_mem (bytes_of_string "YWJjZA==") 5 = Ok (Some (4, [97; 98; 99; 100; 0])) /\
   decode_mem (bytes_of_string "YWJjZA==") 4 = Ok None /\
   decode_mem (bytes_of_string "YWJjZGU=") 5 = Ok None.
+Proof. vm_compute. repeat split. Qed.
+
+(* ---- the importer's structural acceptance rules (coq/Text/XmlImport.v: model of hwloc_look_xml /
+   hwloc__xml_import_object / hwloc__xml_import_object_attr on an abstract element tree) ----
+   For EVERY document: the model answers (it is a total function: Accept t, Reject or Unmodelled), and when it
+   accepts, the object tree t handed to the core satisfies the structural clauses that depend only on the
+   document: the root is a Machine; below, no Machine, nothing normal under a PU, normal objects under normal
+   ones, memory objects not under I/O or Misc, I/O objects not under memory or Misc; I/O and Misc objects carry
+   no set at all, every other object has a cpuset and a nodeset; cache objects have the depth and type
+   attributes of their type; a PU's cpuset and a NUMA node's nodeset are the singleton of its os_index; a Bridge
+   has a host or PCI upstream and a PCI downstream; every MemCache has a memory child; there is at least one PU
+   and one NUMA node; the version is 2.x or 3.x *)
+Theorem import_total : forall d, (exists t, import_doc d = Accept t) \/ import_doc d = Reject \/ import_doc d = Unmodelled.
+Proof. exact import_total_lemma. Qed.
+Print Assumptions import_total.
+Theorem import_accept_wf : forall d t, import_doc d = Accept t ->
+  tree_okb None t = true /\ 1 <= count_type HWLOC_OBJ_PU t /\ 1 <= count_type HWLOC_OBJ_NUMANODE t /\ 2 <= d_major d <= 3.
+Proof. exact import_accept_lemma. Qed.
+Print Assumptions import_accept_wf.
+(* the same, object by object: n is any object of the accepted tree, q the type of the object it hangs below *)
+Theorem import_accept_nodes : forall d t q n, import_doc d = Accept t -> node_in None t q n ->
+  node_okb q (t_type n) (t_ost n) = true /\
+  (t_type n = HWLOC_OBJ_MEMCACHE -> exists k, In k (t_kids n) /\ is_memory (t_type k) = true).
+Proof. exact import_accept_nodes_lemma. Qed.
+Print Assumptions import_accept_nodes.
+Theorem import_accept_root : forall d t, import_doc d = Accept t -> t_type t = HWLOC_OBJ_MACHINE.
+Proof. exact import_accept_root_lemma. Qed.
+Print Assumptions import_accept_root.
+
+(* non-vacuity: a document with a MemCache above a NUMA node, a Group converted to Die, a Bridge, a Misc object *)
+Definition at_ (n v : string) : list N * list N := (bytes_of_string n, bytes_of_string v).
+Definition sets (cs ns : string) := [at_ "cpuset" cs; at_ "complete_cpuset" cs; at_ "nodeset" ns; at_ "complete_nodeset" ns].
+Definition ob (ty : string) (extra : list (list N * list N)) (kids : list elem) : elem :=
+  Elem (bytes_of_string "object") (at_ "type" ty :: extra) [10] false kids.
+Definition doc2 : doc := Doc 3 0 [
+  ob "Machine" (at_ "os_index" "0" :: sets "0x3" "0x1") [
+    Elem (bytes_of_string "info") [at_ "name" "a"; at_ "value" "b"] [] true [];
+    ob "MemCache" (sets "0x3" "0x1" ++ [at_ "depth" "1"]) [ob "NUMANode" (at_ "os_index" "0" :: sets "0x3" "0x1") []];
+    ob "Group" (sets "0x3" "0x1" ++ [at_ "kind" "104"]) [
+      ob "L2Cache" (sets "0x3" "0x1" ++ [at_ "depth" "2"; at_ "cache_type" "0"]) [
+        ob "PU" (at_ "os_index" "0" :: sets "0x1" "0x1") []; ob "PU" (at_ "os_index" "1" :: sets "0x2" "0x1") []]];
+    ob "Bridge" [at_ "bridge_type" "0-1"; at_ "bridge_pci" "0000:[01-01]"] [ob "PCIDev" [at_ "pci_busid" "0000:01:00.0"] []];
+    ob "Misc" [] []];
+  Elem (bytes_of_string "support") [at_ "name" "discovery.pu"] [] true []].
+Example doc2_accepted : exists t, import_doc doc2 = Accept t /\
+  map t_type (t_kids t) = [HWLOC_OBJ_MEMCACHE; HWLOC_OBJ_DIE; HWLOC_OBJ_BRIDGE; HWLOC_OBJ_MISC].
+Proof. vm_compute. eexists. split; reflexivity. Qed.
+(* and the refusals the theorem rests on: a MemCache without memory child, an I/O object with a complete set, a Package root *)
+Example import_refusals :
+  import_doc (Doc 3 0 [ob "Machine" (sets "0x1" "0x1") [ob "MemCache" (sets "0x1" "0x1") []; ob "NUMANode" (at_ "os_index" "0" :: sets "0x1" "0x1") []; ob "PU" (at_ "os_index" "0" :: sets "0x1" "0x1") []]]) = Reject /\
+  import_doc (Doc 3 0 [ob "Machine" (sets "0x1" "0x1") [ob "NUMANode" (at_ "os_index" "0" :: sets "0x1" "0x1") []; ob "PU" (at_ "os_index" "0" :: sets "0x1" "0x1") []; ob "Misc" [at_ "complete_cpuset" "0x1"] []]]) = Reject /\
+  import_doc (Doc 3 0 [ob "Package" (sets "0x1" "0x1") [ob "NUMANode" (at_ "os_index" "0" :: sets "0x1" "0x1") []; ob "PU" (at_ "os_index" "0" :: sets "0x1" "0x1") []]]) = Reject /\
+  import_doc (Doc 3 0 [ob "Machine" (sets "0x1" "0x1") [ob "NUMANode" (at_ "os_index" "0" :: sets "0x1" "0x1") []; ob "PU" (at_ "os_index" "0" :: sets "0x1" "0x1") []]; Elem (bytes_of_string "cpukind") [] [] true []]) = Unmodelled.
 Proof. vm_compute. repeat split. Qed.
 
 (* ---- non-vacuity: a concrete block meeting the hypotheses, and what the model computes on it ---- *)
